@@ -140,6 +140,15 @@ func c09TS(c *Ctx, r *report.Run, w *ws.Workspace, units []rt.JobUnit) error {
 			default:
 				r.Case(cellBase, "accepted", true)
 			}
+		case "unjudged":
+			switch {
+			case status >= 500:
+				r.Violate(cell, "not_400", fmt.Sprintf("TS server: %s: %q -> %d %s", hc.Hdr, hc.Val, status, short(string(body), 200)), hc)
+			case handled:
+				r.Case(cellBase, "lenient_spelling_accepted", true)
+			default:
+				r.Case(cellBase, "lenient_spelling_rejected", true)
+			}
 		case "noheaders":
 			if !handled {
 				r.Violate(cell, "valid_request_not_dispatched", fmt.Sprintf("TS server: status=%d %s", status, short(string(body), 200)), hc)
